@@ -62,8 +62,8 @@ Theorem C02_projection_from_source : forall x a d lb ub,
 Proof. intros. unfold LBFGSB.Generated.Base.projected_point. rewrite vadd_map_mul_vaxpy. reflexivity. Qed.
 Theorem C02_projection_sites_from_source :
   LBFGSB.Generated.Base.projection_sites_src =
-  ["main: np.clip(x + steplength * d, lb, ub)"; "linesearch: np.clip(x0 + alpha * d, lb, ub)";
-   "linesearch: np.clip(x0 + steplength * d, lb, ub)"; "linesearch: np.clip(x0 + alpha * d, lb, ub)"]%string.
+  ["main: np.clip(x + _ * d, lb, ub)"; "linesearch: np.clip(x0 + _ * d, lb, ub)";
+   "linesearch: np.clip(x0 + _ * d, lb, ub)"; "linesearch: np.clip(x0 + _ * d, lb, ub)"]%string.
 Proof. reflexivity. Qed.
 
 Print Assumptions C02_points_in_box.
